@@ -16,7 +16,7 @@ import (
 
 func c02N(tier string) int {
 	if tier == "thorough" {
-		return 100000
+		return 400000
 	}
 	return 10000
 }
@@ -195,7 +195,7 @@ func c02Fixpoint(c *fw.Ctx, doc *gedcom.Document, o c02Opt, payload interface{})
 // ---- model-free accounting on mutated (hostile) streams ----
 
 type c02Line struct {
-	level            int
+	level               int
 	pointer, tag, value string
 }
 
